@@ -78,6 +78,11 @@ def _replay_chunk(args):
             res = image_analysis.locate_droplets(field)
             if not np.array_equal(field.data, data_before):
                 fails.append("field modified")
+            # a minimal radius far below every droplet (0.6 cells; the droplets have at least 1.5) filters nothing -- in
+            # particular not the small caps of a droplet that lie beyond a periodic boundary
+            res_min = image_analysis.locate_droplets(field, minimal_radius=0.6 * min(dx))
+            if sorted(d.data.tobytes() for d in res_min) != sorted(d.data.tobytes() for d in res):
+                fails.append("a minimal radius below every droplet changes the result")
             if len(res) != len(drops):
                 fails.append(f"{len(res)} droplets returned for {len(drops)} originals")
             fails += c02.match_clusters(list(res), it["cl"], grid, shape, per, dx, x0)
@@ -169,6 +174,8 @@ def _random_chunk(seeds):
     for sd in seeds:
         rng = random.Random(sd)
         shape, per = c02.PALETTE[2 + rng.randrange(len(c02.PALETTE) - 2)]
+        if sd % 3 == 0:
+            shape, per = rng.choice([([7, 7, 6], [True, True, True]), ([7, 7, 7], [False, True, True]), ([7, 7, 7], [True, False, True])])
         shape, per = list(shape), list(per)
         dim = len(shape)
         dx, x0 = locate.variant(sd, dim)
@@ -215,12 +222,15 @@ def _random_chunk(seeds):
                     break
         for _ in range(rng.randint(1, 3) if not drops else 0):
             for _try in range(30):
-                r = rng.uniform(1.5, 2.6) * dmax
+                r = rng.uniform(1.5, 2.6 if dim < 3 else 1.9) * dmax
                 if any(per[a] and 2 * r + 2 * dx[a] > L[a] for a in range(dim)):
                     continue
                 pos = []
+                corner = dim == 3 and rng.random() < 0.7     # 3-D: on an edge / corner of the periodic box
                 for a in range(dim):
-                    if per[a]:
+                    if per[a] and corner:
+                        pos.append(x0[a] + rng.choice([0.0, L[a]]) + rng.uniform(-1.2, 1.2) * dx[a])
+                    elif per[a]:
                         pos.append(rng.uniform(x0[a] - 0.5 * L[a], x0[a] + 1.5 * L[a]))
                     else:
                         lo, hi = x0[a] + r + dx[a], x0[a] + L[a] - r - dx[a]
